@@ -116,7 +116,10 @@ fn gen_input(rng: &mut Rng, class: SizeClass, buf: usize, hints: &mut Vec<(usize
         // filler that ends a few bytes before a multiple of the buffer size, so that whatever
         // comes next straddles it
         let k = if rng.chance(1, 4) { 2 } else { 1 };
-        let target = k * buf - rng.urange(0, 60).min(k * buf - 1);
+        // the filler ends somewhere in [k*buf - 60, k*buf + 3]: whatever comes next (or the
+        // filler's own terminator) straddles the multiple of the buffer size; one time in six the
+        // filler is a single token / line / separator run that is itself longer than the buffer
+        let target = if rng.chance(1, 6) { k * buf + rng.urange(4, 6000) } else { (k * buf + 3).saturating_sub(rng.urange(0, 63)).max(1) };
         match rng.below(5) {
             0 => {
                 hints.push((0, ROp::Str));
@@ -160,8 +163,8 @@ fn gen_input(rng: &mut Rng, class: SizeClass, buf: usize, hints: &mut Vec<(usize
                 let _ = start;
             }
         }
-        // land exactly: pad with spaces up to a few bytes before the boundary
-        while out.len() + 3 < k * buf && rng.chance(3, 4) && out.len() < target {
+        // fillers built from whole tokens / lines stop short of the target: pad with spaces
+        while out.len() < target && rng.chance(7, 8) {
             out.push(b' ');
         }
     }
